@@ -76,7 +76,7 @@ def inline_call(exe, name, n, argn, st):
             rets.append(o)
     if not rets:
         raise PathDead()
-    rets = merge_outcomes(rets)
+    rets = merge_outcomes(rets, force=True)
     if len(rets) != 1:
         raise FrontEndError('inline call to %s returns unmergeable states' % name)
     r = rets[0].st
